@@ -204,7 +204,7 @@ class Operator:
 
         for effect in self.grounded_effects:
             self.logger.debug(f"Applying the effect: {str(effect)}")
-            if not not skip_validation and not effect.antecedents_hold(previous_state):
+            if not skip_validation and not effect.antecedents_hold(previous_state):
                 self.logger.debug(
                     "The antecedents for the effect do not hold so skipping the effect."
                 )
